@@ -426,11 +426,19 @@ def _gen_merge(rnd):
             "dict": [rnd.choice([None, {"k": 1}, {"k": 1, "m": 2}, {"k": 3}]) for _ in range(3)]}
 
 
-@st.composite
-def _cases(draw):
-    rnd = draw(urandoms())
+def _gen_from(rnd):
     return _gen_mesh(rnd) if rnd.chance(85) else _gen_merge(rnd)
 
+
+@st.composite
+def _cases(draw):
+    return _gen_from(draw(urandoms()))
+
+
+def fuzz_decode(fdp):
+    """coverage-guided tier: the same generator driven by fuzzer-chosen bytes (vf/core/fuzz_target.py)"""
+    from vf.model.rnd import FdpRandom
+    return _gen_from(FdpRandom(fdp))
 
 def strategy(tier):
     return _cases()
